@@ -36,7 +36,8 @@ RULE = ("suite weights-T: generated histories, T in 1..12 iterations (every valu
         "(set_current of beta / logz / logl incl. None, commit_current_to_history, update_from_dict, to_dict/from_dict and save_state/load_state round trips into a new manager, "
         "compute_results, compute_logw_and_logz; every second sequence issues its set_current calls as one update_current) against "
         "Model.WeightsKeys.runOps: every observation (returned arrays, 'logw' missing from the results dictionary, exception) must agree — this is the cache "
-        "(_results_dict / _invalidate_cache) and the commit rule (None values skipped key by key); non-trivial = a results() call after a state change "
+        "(_results_dict / _invalidate_cache) and the commit rule (None values skipped key by key); a second family loads ANOTHER history of the SAME shape (same T and batch sizes, or same T and N) into the "
+        "same manager — by update_from_dict or by load_state of a checkpoint file — after weights / results were computed; non-trivial = a results() call after a state change "
         "that follows an earlier results() call. Suite nonfinite-T (outside the statement): histories with -inf / +inf / nan / 1e308 entries in logl and "
         "z_t (incl. the all -inf warm-up batch with z = -inf of finding F8, unreachable from the sampler since /repo 959029e) — model at Float vs numpy, NaN and infinities matched structurally. Suite resume-T: "
         "a real Sampler run checkpointed with save_every and RESUMED BY A SAMPLER WITH ANOTHER n_particles (the stored batches then differ in size); "
@@ -597,6 +598,62 @@ def _corr_keys(tier, drv):
     return c
 
 
+def _load_keys(sm, kb, kz, kl, how):
+    """replace the three history lists of the manager `sm` IN PLACE: through update_from_dict, or through a checkpoint file
+    written by another manager and read with load_state (the current values in the file are sm's own, so only the history changes)"""
+    import os
+    import shutil
+    import tempfile
+    from tempest.state_manager import StateManager
+    hist = {"beta": list(kb), "logz": list(kz), "logl": [np.array(a, dtype=float) for a in kl]}
+    if how == "update_from_dict":
+        sm.update_from_dict({"_history": hist})
+        return
+    other = StateManager(n_dim=1)
+    other.update_from_dict({"_history": hist, "_current": sm.to_dict()["_current"]})
+    d = tempfile.mkdtemp(prefix="tv04l_")
+    try:
+        with _quiet():
+            other.save_state(os.path.join(d, "o.state"))
+            sm.load_state(os.path.join(d, "o.state"))
+    finally:
+        shutil.rmtree(d, ignore_errors=True)
+
+
+def _same_shape_history(rng, hist):
+    """another history with the same number of iterations and the same batch sizes: other beta_t, z_t, log-likelihoods"""
+    return [(rng.choice([0.0, 1.0, rng.random()]), rng.uniform(-5, 5), [rng.uniform(-10, 10) for _ in ls]) for _, _, ls in hist]
+
+
+def _gen_replace_ops(rng):
+    """weights / results computed, then ANOTHER history of the SAME shape (or the same total size with other batch sizes) loaded into
+    the same manager, then computed again — a memo keyed on the shape of the history must not survive the replacement"""
+    T = rng.randint(1, 4)
+    n = rng.randint(1, 4)
+    sizes = [n] * T if rng.random() < 0.6 else [rng.randint(1, 4) for _ in range(T)]
+    h1 = [(rng.choice([0.0, 1.0, rng.random()]), rng.uniform(-5, 5), [rng.uniform(-10, 10) for _ in range(k)]) for k in sizes]
+    ops = []
+    for b, z, ls in h1:
+        ops += [("sb", b), ("sz", z), ("sl", ls), ("c", None)]
+    cur = h1
+    for _ in range(rng.randint(1, 3)):
+        ops.append(rng.choice([("w", (rng.choice([0.0, 1.0, rng.random()]), rng.random() < 0.5)), ("r", None)]))
+        if rng.random() < 0.3:
+            ops.append(("w", (rng.random(), False)))
+        nxt = _same_shape_history(rng, cur)
+        if rng.random() < 0.25 and len(nxt) >= 2 and len(nxt[0][2]) >= 2:
+            # same T and same total N, other split
+            nxt[-1] = (nxt[-1][0], nxt[-1][1], nxt[-1][2] + [nxt[0][2][-1]])
+            nxt[0] = (nxt[0][0], nxt[0][1], nxt[0][2][:-1])
+        ops.append(("u", ([b for b, _, _ in nxt], [z for _, z, _ in nxt], [ls for _, _, ls in nxt],
+                          rng.choice(["update_from_dict", "load_state", "load_state"]))))
+        cur = nxt
+        ops.append(("w", (rng.choice([0.0, 1.0, rng.random()]), rng.random() < 0.5)))
+        if rng.random() < 0.5:
+            ops.append(("r", None))
+    return ops
+
+
 def _gen_ops(rng):
     """a call sequence: list of (token for the model, python thunk description)"""
     ops = []
@@ -625,7 +682,7 @@ def _gen_ops(rng):
             ops.append(("c", None))                 # a commit without touching the current values
         elif k < 0.92:
             _, kb, kz, kl, _ = _gen_keys(rng)
-            ops.append(("u", (kb, kz, kl)))
+            ops.append(("u", (kb, kz, kl, rng.choice(["update_from_dict", "load_state"]))))
         elif k < 0.96:
             ops.append(("x", rng.choice(["dict", "file"])))     # to_dict/from_dict or save_state/load_state into a NEW manager
         else:
@@ -679,7 +736,7 @@ def _run_ops_real(ops, use_update=False):
         if k == "c":
             sm.commit_current_to_history()
         elif k == "u":
-            sm.update_from_dict({"_history": {"beta": list(v[0]), "logz": list(v[1]), "logl": [np.array(a, dtype=float) for a in v[2]]}})
+            _load_keys(sm, v[0], v[1], v[2], v[3] if len(v) > 3 else "update_from_dict")
         elif k == "x":
             if v == "dict":
                 sm = StateManager.from_dict(sm.to_dict())
@@ -716,6 +773,8 @@ def _corr_ops(tier, drv):
     rng = common.rng_for("C04.ops")
     c = Corr("ops-T", "toleranced Float (1e-9*(1+scale)); which call raises / returns what matched exactly")
     seqs = [_gen_ops(rng) for _ in range(n)]
+    n_rep = 120 if tier == "quick" else 3000
+    seqs += [_gen_replace_ops(rng) for _ in range(n_rep)]
     # the finding's call sequence (two batches of different size, results() twice) and its repaired-world twin are ordinary cases
     seqs.append([("sb", 0.0), ("sz", 0.0), ("sl", [0.0]), ("c", None), ("sb", 1.0), ("sl", [0.0, 0.0]), ("c", None), ("r", None), ("r", None),
                  ("w", (1.0, True))])
@@ -733,6 +792,9 @@ def _corr_ops(tier, drv):
         c.count("weights_calls", kinds.count("w"))
         c.count("commits", kinds.count("c"))
         c.count("loads", kinds.count("u"))
+        c.count("loads_via_load_state_file", sum(1 for o in ops if o[0] == "u" and len(o[1]) > 3 and o[1][3] == "load_state"))
+        if n <= i < n + n_rep:
+            c.count("same_shape_replacement_sequences")
         c.count("round_trips(to_dict/from_dict, save_state/load_state)", kinds.count("x"))
         ok = len(real) == len(model)
         why = "number of observations"
@@ -1140,6 +1202,45 @@ def oracle_cache(hist):
     return None
 
 
+def oracle_replace(h1, h2, beta, how):
+    """a manager that has already computed weights on history h1 gets its history REPLACED by h2 (same number of iterations and
+    samples) through `how` in {update_from_dict, load_state, from_dict}; what it returns afterwards must be the statement's formula
+    on the history it NOW holds (60-digit reference; cannot fire on correct code)"""
+    from tempest.state_manager import StateManager
+    sm = _commit(h1)
+    with warnings.catch_warnings():
+        warnings.simplefilter("ignore")
+        sm.compute_logw_and_logz(beta, normalize=False)
+        sm.compute_logw_and_logz(1.0)
+        kb, kz, kl = [b for b, _, _ in h2], [z for _, z, _ in h2], [ls for _, _, ls in h2]
+        if how == "from_dict":
+            d = sm.to_dict()
+            d["_history"].update({"beta": kb, "logz": kz, "logl": [np.array(a, dtype=float) for a in kl]})
+            sm = StateManager.from_dict(d)
+        else:
+            _load_keys(sm, kb, kz, kl, how)
+        held = _export_hist(sm)
+        rw, rz = sm.compute_logw_and_logz(beta, normalize=False)
+        nw, nz = sm.compute_logw_and_logz(beta, normalize=True)
+    if [(b, z, ls) for b, z, ls in held] != [(float(b), float(z), [float(x) for x in ls]) for b, z, ls in h2]:
+        return f"replace via {how}: the manager does not hold the loaded history"
+    per, glob = _scales(h2, beta)
+    ref_raw, ref_z, ref_norm, _, _ = _ref(h2, beta)
+    rw, nw = [float(x) for x in rw], [float(x) for x in nw]
+    if len(rw) != len(ref_raw):
+        return f"replace via {how}: {len(rw)} log-weights for {len(ref_raw)} stored particles"
+    for i in range(len(rw)):
+        if not abs(rw[i] - ref_raw[i]) <= TOL * (1 + per[i]):
+            return (f"history replaced via {how} after weights had been computed on another history of the same shape: particle {i} of the "
+                    f"history now stored has unnormalised logw {rw[i]!r}, the statement's formula on the stored history gives {ref_raw[i]!r}")
+        if not abs(nw[i] - ref_norm[i]) <= TOL * (1 + glob):
+            return (f"history replaced via {how}: particle {i}: normalised logw {nw[i]!r}, formula on the stored history {ref_norm[i]!r}")
+    for z in (float(rz), float(nz)):
+        if not abs(z - ref_z) <= TOL * (1 + glob):
+            return f"history replaced via {how}: logz {z!r}, log of the mean unnormalised weight of the stored history is {ref_z!r}"
+    return None
+
+
 def oracle_sampler(resumed=False):
     """Sampler.posterior(return_logw=True) / evidence() against the 60-digit reference of the statement on the exported history"""
     runs = _resumed_runs("quick") if resumed else ((sp, s) for sp, s, *_ in _sampler_runs("quick"))
@@ -1251,6 +1352,24 @@ def search(tier, hints):
                               "history_readable": [[b, z, ls] for b, z, ls in hist]})
                 break
     if not found:
+        # a history replaced wholesale (update_from_dict / load_state into the same manager / from_dict) after weights were computed
+        rrng = common.rng_for("C04.search.replace")
+        for k in range(60 if tier == "quick" else 600):
+            T, n = rrng.randint(1, 4), rrng.randint(1, 4)
+            h1 = [(rrng.choice([0.0, 1.0, rrng.random()]), rrng.uniform(-5, 5), [rrng.uniform(-10, 10) for _ in range(n)]) for _ in range(T)]
+            h2 = _same_shape_history(rrng, h1)
+            how = ["load_state", "update_from_dict", "from_dict"][k % 3]
+            beta = rrng.choice([0.0, 1.0, rrng.random()])
+            try:
+                msg = oracle_replace(h1, h2, beta, how)
+            except Exception as e:  # noqa
+                msg = f"replace via {how}: raised {type(e).__name__}: {e}"
+            if msg:
+                found.append({"what": msg, "hist": _hist_json(h2), "previous_hist": _hist_json(h1), "beta": beta, "beta_hex": f2hex(beta),
+                              "replace": how, "history_readable": [[b, z, ls] for b, z, ls in h2],
+                              "previous_history_readable": [[b, z, ls] for b, z, ls in h1]})
+                break
+    if not found:
         for resumed in (False, True):
             try:
                 f = oracle_sampler(resumed)
@@ -1276,6 +1395,12 @@ def replay(obj):
         return {"fails": r is not None, "detail": r["what"] if r else None}
     hist = _hist_from_json(f["hist"])
     beta = hex2f(f["beta_hex"])
+    if f.get("replace"):
+        try:
+            msg = oracle_replace(_hist_from_json(f["previous_hist"]), hist, beta, f["replace"])
+        except Exception as e:  # noqa
+            msg = f"raised {type(e).__name__}: {e}"
+        return {"fails": msg is not None, "detail": msg}
     if f.get("cache"):
         try:
             msg = oracle_cache(hist)
